@@ -24,8 +24,8 @@ package augment
 //@ func (f *finder) next
 //@   requires f.scanner != nil && f.file != nil
 //@   at call (*go/scanner.Scanner).Scan set lastTok = f.tok
-//@   ensures the-token-left-behind-is-remembered: lastTok == old(f.tok)
-//@   assigns f.pos, f.tok, f.offset, lastTok, f.errors, elems(f.errors), scanLeft
+//@   ensures the-token-left-behind-is-remembered: lastTok == old(f.tok) && f.prev == old(f.tok)
+//@   assigns f.pos, f.tok, f.prev, f.offset, lastTok, f.errors, elems(f.errors), scanLeft
 //@   ensures scanLeft >= 0
 //@   ensures [C08] old(scanLeft) > 0 ==> scanLeft == old(scanLeft) - 1 && f.tok != const("go/token.EOF")
 //@   ensures [C08] old(scanLeft) <= 0 ==> scanLeft == 0 && f.tok == const("go/token.EOF")
@@ -33,7 +33,7 @@ package augment
 
 //@ func (f *finder) ident
 //@   requires finderOK(f) && f.tok != const("go/token.EOF")
-//@   assigns f.pos, f.tok, f.offset, lastTok, f.errors, elems(f.errors), scanLeft
+//@   assigns f.pos, f.tok, f.prev, f.offset, lastTok, f.errors, elems(f.errors), scanLeft
 //@   ensures finderOK(f)
 //@   ensures [C08] consumes-a-token: tokLeft(f) < old(tokLeft(f))
 //@   ensures f.errors.arr == old(f.errors.arr) || fresh(f.errors.arr)
@@ -45,7 +45,7 @@ package augment
 //@   at call (*pgo/augment.finder).append assert [C01,C04,C08] an-array-length-ellipsis-is-not-an-elision: old(lastTok) != const("go/token.LBRACK")
 //@   at call (*pgo/augment.finder).append assert [C04,C13] elision-unless-variadic: !(f.tok == const("go/token.IDENT") && fileLine(f.file, pos) == fileLine(f.file, f.pos))
 //@   at call (*pgo/augment.finder).next#1 assert [C04,C13] variadic-is-an-identifier-on-the-same-line: f.tok == const("go/token.IDENT") && fileLine(f.file, pos) == fileLine(f.file, f.pos)
-//@   assigns f.pos, f.tok, f.offset, lastTok, f.errors, elems(f.errors), f.augs, elems(f.augs), scanLeft
+//@   assigns f.pos, f.tok, f.prev, f.offset, lastTok, f.errors, elems(f.errors), f.augs, elems(f.augs), scanLeft
 //@   ensures finderOK(f)
 //@   ensures [C08] consumes-a-token: tokLeft(f) < old(tokLeft(f))
 //@   ensures f.errors.arr == old(f.errors.arr) || fresh(f.errors.arr)
@@ -53,7 +53,7 @@ package augment
 
 //@ func (f *finder) process
 //@   requires finderOK(f) && f.tok != const("go/token.EOF")
-//@   assigns f.pos, f.tok, f.offset, lastTok, f.errors, elems(f.errors), f.augs, elems(f.augs), scanLeft
+//@   assigns f.pos, f.tok, f.prev, f.offset, lastTok, f.errors, elems(f.errors), f.augs, elems(f.augs), scanLeft
 //@   ensures finderOK(f)
 //@   ensures [C08] consumes-a-token: tokLeft(f) < old(tokLeft(f))
 //@   ensures f.errors.arr == old(f.errors.arr) || fresh(f.errors.arr)
@@ -62,7 +62,7 @@ package augment
 
 //@ func (f *finder) function
 //@   requires finderOK(f) && f.tok != const("go/token.EOF")
-//@   assigns f.pos, f.tok, f.offset, lastTok, f.errors, elems(f.errors), f.augs, elems(f.augs), scanLeft
+//@   assigns f.pos, f.tok, f.prev, f.offset, lastTok, f.errors, elems(f.errors), f.augs, elems(f.augs), scanLeft
 //@   ensures finderOK(f)
 //@   ensures [C08] consumes-a-token: tokLeft(f) < old(tokLeft(f))
 //@   ensures f.errors.arr == old(f.errors.arr) || fresh(f.errors.arr)
@@ -78,7 +78,7 @@ package augment
 // A parameter/result list: scanned up to its closing parenthesis or the end of the input.
 //@ func (f *finder) fieldList
 //@   requires finderOK(f)
-//@   assigns f.pos, f.tok, f.offset, lastTok, f.errors, elems(f.errors), f.augs, elems(f.augs), scanLeft
+//@   assigns f.pos, f.tok, f.prev, f.offset, lastTok, f.errors, elems(f.errors), f.augs, elems(f.augs), scanLeft
 //@   ensures finderOK(f)
 //@   ensures [C08] never-goes-back: tokLeft(f) <= old(tokLeft(f))
 //@   ensures [C08] consumes-a-token: old(f.tok) != const("go/token.EOF") ==> tokLeft(f) < old(tokLeft(f))
@@ -100,7 +100,7 @@ package augment
 // A top-level func declaration: optional receiver list, name, parameters, results.
 //@ func (f *finder) funcDecl
 //@   requires finderOK(f)
-//@   assigns f.pos, f.tok, f.offset, lastTok, f.errors, elems(f.errors), f.augs, elems(f.augs), scanLeft
+//@   assigns f.pos, f.tok, f.prev, f.offset, lastTok, f.errors, elems(f.errors), f.augs, elems(f.augs), scanLeft
 //@   ensures finderOK(f)
 //@   ensures [C08] never-goes-back: tokLeft(f) <= old(tokLeft(f))
 //@   ensures f.errors.arr == old(f.errors.arr) || fresh(f.errors.arr)
@@ -113,14 +113,14 @@ package augment
 
 //@ func (f *finder) pkg
 //@   requires finderOK(f)
-//@   assigns f.pos, f.tok, f.offset, lastTok, f.errors, elems(f.errors), f.augs, elems(f.augs), scanLeft
+//@   assigns f.pos, f.tok, f.prev, f.offset, lastTok, f.errors, elems(f.errors), f.augs, elems(f.augs), scanLeft
 //@   ensures finderOK(f)
 //@   ensures f.errors.arr == old(f.errors.arr) || fresh(f.errors.arr)
 //@   ensures f.augs.arr == old(f.augs.arr) || fresh(f.augs.arr)
 
 //@ func (f *finder) imports
 //@   requires finderOK(f)
-//@   assigns f.pos, f.tok, f.offset, lastTok, f.errors, elems(f.errors), scanLeft
+//@   assigns f.pos, f.tok, f.prev, f.offset, lastTok, f.errors, elems(f.errors), scanLeft
 //@   ensures finderOK(f)
 //@   ensures f.errors.arr == old(f.errors.arr) || fresh(f.errors.arr)
 //@   loop 0
@@ -134,7 +134,7 @@ package augment
 
 //@ func (f *finder) topLevelDecl
 //@   requires finderOK(f)
-//@   assigns f.pos, f.tok, f.offset, lastTok, f.errors, elems(f.errors), f.augs, elems(f.augs), scanLeft
+//@   assigns f.pos, f.tok, f.prev, f.offset, lastTok, f.errors, elems(f.errors), f.augs, elems(f.augs), scanLeft
 //@   ensures finderOK(f)
 //@   ensures f.errors.arr == old(f.errors.arr) || fresh(f.errors.arr)
 //@   ensures f.augs.arr == old(f.augs.arr) || fresh(f.augs.arr)
@@ -142,7 +142,7 @@ package augment
 // The whole scan terminates: the main loop runs until EOF and every step consumes a token.
 //@ func (f *finder) find() (augs)
 //@   requires finderOK(f)
-//@   assigns f.pos, f.tok, f.offset, lastTok, f.errors, elems(f.errors), f.augs, elems(f.augs), scanLeft
+//@   assigns f.pos, f.tok, f.prev, f.offset, lastTok, f.errors, elems(f.errors), f.augs, elems(f.augs), scanLeft
 //@   loop 0
 //@     invariant finderOK(f)
 //@     invariant f.errors.arr == old(f.errors.arr) || fresh(f.errors.arr)
